@@ -46,7 +46,7 @@ func (f *Frame) enterLoop(li *loopInfo, b *ssa.BasicBlock, preds []*ssa.BasicBlo
 			if len(preds) > 1 {
 				name += fmt.Sprintf("@pred%d", pi+1)
 			}
-			vc.oblige(name, "inv.entry", implies(conds[pi], ctx.evalBool(inv.E)), clauseProps(inv, f.props), inv.Where, "loop invariant holds on entry: "+inv.Src)
+			vc.oblige(name, "inv.entry", implies(conds[pi], ctx.evalBool(inv.E)), clauseProps(inv, f.ctProps()), inv.Where, "loop invariant holds on entry: "+inv.Src)
 		}
 	}
 	// 2. havoc
@@ -105,7 +105,7 @@ func (f *Frame) loopInvs(n int) []Clause {
 	if f.ct == nil {
 		return nil
 	}
-	return f.ct.LoopInv[n]
+	return f.en.activeClauses(f.ct.LoopInv[n], f.ct)
 }
 
 func (f *Frame) backEdge(li *loopInfo, latch *ssa.BasicBlock) {
@@ -136,13 +136,13 @@ func (f *Frame) backEdge(li *loopInfo, latch *ssa.BasicBlock) {
 	}
 	for k, inv := range f.loopInvs(li.n) {
 		name := f.callPath + fmt.Sprintf("inv.step.%d.%s%s", li.n, clauseName(inv, k), suffix)
-		vc.oblige(name, "inv.step", implies(cond, ctx.evalBool(inv.E)), clauseProps(inv, f.props), inv.Where, "loop invariant preserved: "+inv.Src)
+		vc.oblige(name, "inv.step", implies(cond, ctx.evalBool(inv.E)), clauseProps(inv, f.ctProps()), inv.Where, "loop invariant preserved: "+inv.Src)
 	}
 	if f.ct != nil {
 		if dec, ok := f.ct.LoopDec[li.n]; ok {
 			m := ctx.eval(dec.E).E
 			name := f.callPath + fmt.Sprintf("dec.%d%s", li.n, suffix)
-			vc.oblige(name, "dec", implies(cond, and(app("<=", "0", li.decAt), app("<", m, li.decAt))), clauseProps(dec, f.props), dec.Where, "loop variant decreases: "+dec.Src)
+			vc.oblige(name, "dec", implies(cond, and(app("<=", "0", li.decAt), app("<", m, li.decAt))), clauseProps(dec, f.ctProps()), dec.Where, "loop variant decreases: "+dec.Src)
 		}
 	}
 }
